@@ -35,7 +35,10 @@ def gen_pairs(ctx, n):
                (T.V(1), T.L([T.A("a")], T.V(1))), (T.Cm("g", T.V(1), T.V(2)), T.Cm("g", T.V(2), T.Cm("f", T.V(1)))),
                (T.I(1), T.F(4)), (T.A("a"), T.S("a")), (T.A("A b"), T.A("A b")), (T.L([T.V(1)], T.V(2)), T.L([T.A("a"), T.A("b")])),
                (T.Cm("g", T.V(1), T.V(1)), T.Cm("g", T.A("a"), T.A("b"))), (T.Cm("g", T.V(1), T.V(2)), T.Cm("g", T.V(2), T.V(1))),
-               (T.Cm("f", T.V(1)), T.Cm("f", T.V(1))), (T.V(1), T.V(2)), (T.V(1), T.V(1))]
+               (T.Cm("f", T.V(1)), T.Cm("f", T.V(1))), (T.V(1), T.V(2)), (T.V(1), T.V(1)),
+               (T.Cm("g", T.Cm("f", T.V(1)), T.V(2)), T.V(3)), (T.Cm("g", T.Cm("g", T.V(1), T.A("b")), T.V(2)), T.V(3)),
+               (T.Cm("g", T.Cm("f", T.V(2)), T.V(1)), T.V(3)), (T.L([T.Cm("f", T.V(1)), T.V(2)]), T.V(3)),
+               (T.Cm("g", T.Cm("f", T.Cm("f", T.V(1))), T.Cm("f", T.V(2))), T.Cm("g", T.V(3), T.V(1)))]
     for x, y in special:
         pairs.append((x, y))
     while len(pairs) < n:
@@ -81,7 +84,7 @@ def run(ctx):
                           "%s = %s : %s" % (T.render(x), T.render(y), o["crash"]), {"x": x, "y": y})
             continue
         send.append({"id": i, "kind": "unify", "x": x, "y": y, "yh": T.rename(y, 100), "eq": o["eq"], "neq": o["neq"],
-                     "head": o["head"], "head2": o["head2"]})
+                     "head": o["head"], "head2": o["head2"], "head3": o["head3"]})
     J = tlc.judge_batch("JudgeTerms", send, nproc=ctx.nproc, tag="c14")
     nunif = 0
     for c in send:
@@ -118,7 +121,8 @@ def replay(ctx, path):
         ctx.violation({"clause": "crash", "error": o.get("error", ""), "site": o.get("site", "")}, o["crash"], d["case"])
     else:
         j = tlc.judge_batch("JudgeTerms", [{"id": 0, "kind": "unify", "x": x, "y": y, "yh": T.rename(y, 100),
-                                            "eq": o["eq"], "neq": o["neq"], "head": o["head"], "head2": o["head2"]}], nproc=1)[0]
+                                            "eq": o["eq"], "neq": o["neq"], "head": o["head"], "head2": o["head2"],
+                                            "head3": o["head3"]}], nproc=1)[0]
         print(j)
         if not j["ok"]:
             ctx.violation({"clause": j["why"]}, j["why"], d["case"])
